@@ -52,7 +52,10 @@ func (fr *Frame) call(st *State, site ssa.Instruction, c *ssa.CallCommon, pos to
 	case *ssa.Builtin:
 		return fr.builtin(st, callee, c, args, pos)
 	case *ssa.Function:
-		return fr.static(st, callee, nil, args, pos)
+		fr.guardedLockCall(st, c, pos, true)
+		rs := fr.static(st, callee, nil, args, pos)
+		fr.guardedLockCall(st, c, pos, false)
+		return rs
 	case *ssa.MakeClosure:
 		var bs []Val
 		for _, b := range callee.Bindings {
@@ -494,6 +497,11 @@ func (fr *Frame) builtin(st *State, b *ssa.Builtin, c *ssa.CallCommon, args []Va
 			u.unsupported("%s: delete on non-string-keyed map", fr.oblFn)
 			return nil
 		}
+		if g, owner, ok := fr.guardedMap(c.Args[0]); ok {
+			had := u.def("had", SBool, and(not(eq(m.T, "null")), sel(sel(u.get(st, "MD_"+vs), m.T), k.T)))
+			hv := u.def("hadv", vs, sel(sel(u.get(st, "MV_"+vs), m.T), k.T))
+			fr.guardedAccess(st, g, owner, true, pos, "MapDel", []Val{k, {T: had, Sort: SBool, Typ: types.Typ[types.Bool]}, {T: hv, Sort: vs, Typ: mt.Elem()}})
+		}
 		fr.frameMap(st, m.T, pos)
 		MD := u.get(st, "MD_"+vs)
 		u.set(st, "MD_"+vs, store(MD, m.T, store(sel(MD, m.T), k.T, "false")))
@@ -658,6 +666,13 @@ func (u *Unit) blockWrites(b *ssa.BasicBlock, ws map[string]bool, seen map[*ssa.
 			vs := u.sorts.sortOf(mt.Elem())
 			ws["MD_"+vs] = true
 			ws["MV_"+vs] = true
+			if f := guardedFieldName(u, x.Map); f != "" {
+				ws["ev:MapSet_"+f] = true
+			}
+		case *ssa.Lookup:
+			if f := guardedFieldName(u, x.X); f != "" {
+				ws["ev:MapGet_"+f] = true
+			}
 		case *ssa.Alloc:
 			if depth == 0 && u.curLoopBody != nil && u.curLoopBody[x.Block()] {
 				continue // fresh object: zero-initialising it writes no existing address
@@ -678,7 +693,7 @@ func (u *Unit) blockWrites(b *ssa.BasicBlock, ws map[string]bool, seen map[*ssa.
 			ws["MD_"+u.sorts.sortOf(x.Type().Underlying().(*types.Map).Elem())] = true
 		case *ssa.Send:
 			ws["ev:ChanSend"] = true
-			ws["ev:ChanSend_"+smtIdent(u.sorts.sortOf(x.X.Type()))] = true
+			ws["ev:ChanSend_"+chanElemName(u, x.X.Type())] = true
 		case *ssa.UnOp:
 			if x.Op == token.ARROW {
 				ws["ev:ChanRecv"] = true
@@ -910,6 +925,9 @@ func (u *Unit) callWrites(c *ssa.CallCommon, ws map[string]bool, seen map[*ssa.F
 		case "delete":
 			mt := c.Args[0].Type().Underlying().(*types.Map)
 			ws["MD_"+u.sorts.sortOf(mt.Elem())] = true
+			if f := guardedFieldName(u, c.Args[0]); f != "" {
+				ws["ev:MapDel_"+f] = true
+			}
 		case "copy":
 			ws["BS"] = true
 		}
